@@ -41,7 +41,14 @@ def _raw(cls, name):
 
 
 def _while_key(func, qual):
-    """(qualname, 'while@<line>') of the first while loop of a function, from the working tree."""
+    """Key of the first while loop of a function or of one of its direct private helpers (by role, not by place)."""
+    import ast
+    from .common import reachable_loops
+    ks = reachable_loops(func, VarInt, kind=ast.While, depth=1)
+    return ks[0] if ks else None
+
+
+def _while_key_old(func, qual):
     import ast, inspect
     src_lines, start = inspect.getsourcelines(func)
     import textwrap
@@ -315,19 +322,28 @@ class SendTerminates(Unit):
         f = _raw(VarInt, 'send')
         key = _while_key(f, SEND_Q)
 
+        def the_value(frame):
+            # the integer the loop consumes seven bits at a time: the one integer local the loop assigns
+            names = [k for k, v in frame.locals.items() if k in spec.live and isinstance(v, (SInt, int)) and not isinstance(v, bool)]
+            if len(names) != 1:
+                raise Unsupported('encoder loop: expected exactly one loop-carried integer, found %r' % (names,))
+            return names[0]
+
         def inv(I_, frame):
-            v = frame.locals['value']
-            return v >= 0
+            return frame.locals[the_value(frame)] >= 0
 
         def variant(I_, frame):
-            return frame.locals['value']
+            return frame.locals[the_value(frame)]
 
         def havoc(I_, frame):
-            frame.locals['value'] = I_.E.new_int('value@head')
-            frame.locals['out'] = SBytes([I_.E.new_blob('out@head')])
+            frame.locals[the_value(frame)] = I_.E.new_int('value@head')
+            for k, v in list(frame.locals.items()):
+                if isinstance(v, (bytes, SBytes)) and k in spec.assigned:
+                    frame.locals[k] = SBytes([I_.E.new_blob('out@head')])      # the bytes produced so far
         if key is None:
             raise Unsupported('contract does not fit the code any more: send has no while loop any more')
-        I.loop_specs[key] = LoopSpec('send.loop', inv, havoc, variant)
+        spec = LoopSpec('send.loop', inv, havoc, variant)
+        I.loop_specs[key] = spec
 
     def run(self, I):
         E = I.E
